@@ -11,7 +11,7 @@ def run(tier, seed, replay=None):
     differential(check, 'C17', 'stall', 'stall', tier, seed, replay, 1, 3, replay_text, sample_lines=10, timeout=1800, shards=8 if tier == 'quick' else 16)
     check.coverage['rule'] = ('stall: each case: in-process server on loopback QUIC; a real subscriber on topic A that is never polled, 8-12 messages of 1 MB published to A until the router '
                               'blocks on that subscriber (QUIC flow control), then N further registrations on A for N in {0, 95, 100, 101, 102, 110, 130, 250} spread over several raw connections '
-                              '(roles mixed), in an order relative to the stall drawn per case (before / after / half-half); then a peer that grants the server no stream credit asks for two roles of the wrong messaging pattern on A and never reads the refusals, and the probing client asks, in the background and over the same connection, for 5 more subscriptions on A and publishes 200 KB messages to A (its publisher stream fills with bytes the stalled router never reads); then that client opens a subscriber and a publisher on topic B and '
+                              '(roles mixed), in an order relative to the stall drawn per case (before / after / half-half); then a peer that grants the server no stream credit asks for two roles of the wrong messaging pattern on A and never reads the refusals, then for two roles that are fine (a subscription to A, one to a topic of its own) whose acknowledgement it never reads either, and the probing client asks, in the background and over the same connection, for 5 more subscriptions on A and publishes 200 KB messages to A (its publisher stream fills with bytes the stalled router never reads); then that client opens a subscriber and a publisher on topic B and '
                               'must receive 3 messages within the deadline, and a requestor/replier pair on topic C must complete a request; finally a second topic is stalled entirely over ONE client-library connection (never-polled subscriber, publisher flooding 256 KB messages until its sends stop completing) that also carries a calm pub/sub pair opened before the stall: the calm pair must still deliver a message and fresh streams must still open on that connection; non-trivial = distinct (N, order, roles)')
     check.coverage['trusted_base'] = TRUSTED_BASE_COMMON + [
         'translator/serverfacts.py: statement-directed translation of handle_stream (lock / unlock / replies / hand-off positions, own clone vs shared sender) and SOCK_CHANNEL_SIZE',
